@@ -203,7 +203,11 @@ def check_problem(spec, calls, counters, violations):
             break
         r = np.where(np.array(ta), (fx - np.array(row_tars[i])) * wt, 0.0)
         pen = math.sqrt(float(np.dot(r, r)))
-        if not math.isclose(pen, float(lg["penalty"][i]), rel_tol=1e-12, abs_tol=1e-300):
+        # (non-unit knob weights: the logged evaluation happened at knob/weight*weight, so every target value may be a
+        #  few ulps of ITS OWN magnitude away -- an absolute error that is large relative to a penalty close to zero)
+        slack = 1e-300 if unit else 256 * np.finfo(float).eps * float(max(1.0, np.max(np.abs(fx)), np.max(np.abs(row_tars[i])))) \
+            * float(np.max(np.abs(wt))) * math.sqrt(len(fx))
+        if not math.isclose(pen, float(lg["penalty"][i]), rel_tol=1e-12, abs_tol=slack):
             issues.append("row %d records penalty %r, an independent evaluation gives %r" % (i, float(lg["penalty"][i]), pen))
             break
         # reload(i) puts knobs and flags back, from wherever the model is: go to another row first
